@@ -1,5 +1,6 @@
 \* the REPAIRED model (close reason cut at 123 bytes) satisfies the promise without deviation
 \* internal-error close: <= 2 frames over {ok, sub, boom short, boom long}, client close and shutdown allowed
+\* measured: 4 546 distinct / 9 301 generated states, depth 17
 CONSTANTS
   FrameAlphabet <- FramesBoom
   MaxFrames = 2
